@@ -48,6 +48,15 @@ def main(argv):
         return mod.replay(res, json.load(open(os.path.join(core.VERIF, replay))))
     proofs = core.check_proofs(mod.PROOF_MODULE, mod.PROOF_FILES)
     proofs["module"] = mod.PROOF_MODULE
+    # further property modules of the same property (theorems that need lemma files which themselves import the first one)
+    for extra in getattr(mod, "MORE_PROOF_MODULES", []):
+        more = core.check_proofs(extra, [])
+        proofs["obligations"] += more["obligations"]
+        proofs["discharged"] += more["discharged"]
+        proofs["axioms"].update(more["axioms"])
+        proofs["problems"] += more["problems"]
+        proofs["names"] = proofs.get("names", []) + more.get("names", [])
+        proofs["module"] += " " + extra
     if proofs["problems"]:
         res.violation("a proof obligation of %s does not check" % pid,
                       dict(kind="proof", problems=proofs["problems"], unchecked=mod.PROOF_MODULE), no_input=True)
